@@ -261,7 +261,50 @@ def bounded_emitted_models(tier, seed):
                                            "maps, enums with falsy members, untyped object", "evaluations": n, "distinct_nontrivial": n, "exhaustive": False, "failures": failures}
 
 
-BOUNDED = [bounded_field_sets, bounded_emitted_models]
+def bounded_emitted_models_random(tier, seed):
+    """the same emitted-model oracle over the random documents of the corpus (fixed seeds): whatever mix of features a document has, every named object
+    schema comes out as a class with exactly its declared properties (own + allOf) under their wire keys, required as declared"""
+    import os
+    import shutil
+    from props import corpus, gen_harness as G
+    from pyopenapi_gen.core.utils import NameSanitizer
+    docs = [(n, d) for n, f, d in corpus.shapes(tier, seed) if f.get("random_doc")]
+    failures, n = [], 0
+    for name, d in docs:
+        schemas = d["components"]["schemas"]
+        root = G.scratch("c02r")
+        try:
+            if G.generate(d, root, "cli") is not None:
+                continue
+            models = _emitted_models(os.path.join(root, "cli"))
+            for sname, sch in schemas.items():
+                if not isinstance(sch, dict) or not (sch.get("properties") or sch.get("allOf")):
+                    continue
+                want_p, want_r = ref_fields(schemas, sname)
+                if not want_p:
+                    continue
+                n += 1
+                m = models.get(NameSanitizer.sanitize_class_name(sname))
+                if m is None:
+                    failures.append({"id": f"bounded:emitted-model-random:{name}:missing", "detail": f"{name}: no class for schema {sname}", "input": {"document": name, "schema": sname}})
+                    continue
+                wire = m["wire"] if isinstance(m["wire"], dict) else {f: f for f in m["fields"]}
+                got = {w for w, py in wire.items() if py in m["fields"]}
+                if got != set(want_p):
+                    failures.append({"id": f"bounded:emitted-model-random:{name}:fields", "detail": f"{name}: schema {sname}: wire keys {sorted(got)}, declared {sorted(want_p)}",
+                                     "input": {"document": name, "schema": sname, "definition": sch}})
+                    continue
+                got_req = {w for w, py in wire.items() if py in m["required"]}
+                if got_req != set(want_r) & set(want_p):
+                    failures.append({"id": f"bounded:emitted-model-random:{name}:required", "detail": f"{name}: schema {sname}: required {sorted(got_req)}, declared {sorted(set(want_r) & set(want_p))}",
+                                     "input": {"document": name, "schema": sname}})
+        finally:
+            shutil.rmtree(root, ignore_errors=True)
+    return {"function": "generate_client on the random documents of the corpus: emitted dataclass fields / wire keys / required flags vs. declared properties", "backend": "bounded",
+            "bound": f"{len(docs)} random documents (fixed seeds), {n} object schemas", "evaluations": n, "distinct_nontrivial": n, "exhaustive": False, "failures": failures}
+
+
+BOUNDED = [bounded_field_sets, bounded_emitted_models, bounded_emitted_models_random]
 
 MANIFEST = {
     "category": "other",
